@@ -7,6 +7,7 @@ mod c03;
 mod c04;
 mod c05;
 mod c10;
+mod c11;
 mod keys;
 mod c13;
 
@@ -21,6 +22,7 @@ fn main() {
         "C04" => c04::run(&mut ck),
         "C05" => c05::run(&mut ck),
         "C10" => c10::run(&mut ck),
+        "C11" => c11::run(&mut ck),
         "C13" => c13::run(&mut ck),
         _ => {
             eprintln!("vf-core: unknown property {id}");
